@@ -1,11 +1,11 @@
 /-
   C10 — CDCN round trip: parsing formatted output reproduces value and text.
 
-  Proved: FormatValue is total (it returns for every value, however deep or wide, with fuel
-  linear in the size of the value), elides at the limit, and is a pure function of its
-  argument.  The round-trip equation itself (`C10_roundtrip_statement`) composes the three
-  executable models (formatter, scanner, parser); it is held by the correspondence run on
-  generated values, not proved (see DESIGN.md, C10).
+  Proved here: FormatValue is total (it returns for every value, however deep or wide, with
+  fuel linear in the size of the value), elides at the limit, and is a pure function of its
+  argument.  The round-trip equation over the three executable models (formatter, scanner,
+  parser) is proved in Props/C10Round.lean (`C10_roundtrip`); `C10_roundtrip_statement`
+  below is the earlier, existential form of the statement, kept for reference.
 -/
 import CollectionModel.Model.Cdcn.Format
 import CollectionModel.Model.Cdcn.Parse
@@ -118,8 +118,8 @@ theorem C10_format_pure (fuel : Nat) (v : Val) (history : List Val) :
     (history.foldl (fun (_ : FOut) h => formatValue leafText max fuel h) (formatValue leafText max fuel v),
       formatValue leafText max fuel v).2 = formatValue leafText max fuel v := rfl
 
-/-- the round-trip equation (not proved; checked by the correspondence run): for every value of
-    the canonical universe within the limit, parsing the formatted text gives the value back -/
+/-- the first form in which the round trip was stated (acceptance only); the proved theorem
+    `C10_roundtrip` (Props/C10Round.lean) is stronger: the parsed value IS the value -/
 def C10_roundtrip_statement : Prop :=
   ∀ (env : Env) (leafText : Val → Option (List Nat)) (v : Val) (text : List Nat),
     formatValue leafText 8 (3 * fsize v + 1) v = .ok text →
